@@ -4,7 +4,7 @@ A program is a dict {"mutex": n, "sem": [init...], "cond": n, "barrier": [count.
 "tag": t, "actors": [[op...]...], "dyn": [[op...]...]}; an op is a string such as "L0", "S1.42", "W0.1".
 
 The programs respect the API contract by construction and through the VM's guards: unlock / condvar wait only when the
-mutex is held (every condvar is always used with the same mutex), everything held is released and every pending
+mutex is held (every condvar is always used with the same mutex), a barrier for n actors is used by at most n actors, everything held is released and every pending
 communication is waited for when an actor ends, joins only on created actors, each dyn actor is created once, wait_any only
 over a non-empty set.  Blocking for ever (lock-order inversions, unmatched receives, barriers that never fill) is a legitimate
 behaviour: the walk simply ends.  Everything an actor observes is the result of one of its own visible transitions.
@@ -76,7 +76,12 @@ def _snippet(rng, p, fam, me, ninit, mydyn, slots):
             return ["L%d" % m, rng.choice("NA") + str(c), "U%d" % m]
         return [rng.choice("NA") + str(c)]
     if fam == "barrier":
-        return ["R%d" % rng.randrange(len(p["barrier"]))]
+        # a barrier for n actors is only used by (at most) n actors: more arrivals than expected in one phase is outside
+        # the contract of a barrier (cf. std::barrier, to which the documentation refers)
+        mine = [b for b, members in enumerate(p["_bar_members"]) if me in members]
+        if not mine:
+            return ["Y"]
+        return ["R%d" % rng.choice(mine)]
     if fam == "comm":
         x = rng.randrange(p["mbox"])
         if r < 0.45:
@@ -147,6 +152,7 @@ def generate(rng, families=None, max_actors=4, max_ops=7):
     if rng.random() < 0.5:                   # ids of different kinds of objects differ, so that a mix-up shows
         p["skip"] = [rng.randrange(4) for _ in range(5)]
     p["tag"] = rng.choice([0, 7, 100])
+    p["_bar_members"] = [set(rng.sample(range(ninit + ndyn), min(c, ninit + ndyn))) for c in p["barrier"]]
     body = [f for f in fams]
     dyn_owner = {ninit + d: rng.randrange(ninit) for d in range(ndyn)}
     for a in range(ninit + ndyn):
@@ -172,4 +178,5 @@ def generate(rng, families=None, max_actors=4, max_ops=7):
                     continue
             fixed.append(o)
         (p["actors"] if a < ninit else p["dyn"]).append(fixed or ["Y"])
+    del p["_bar_members"]
     return p, "+".join(sorted(fams))
